@@ -30,6 +30,26 @@ pub struct Target {
     pub corpus: &'static [&'static str],
 }
 
+/// Values produced by the library in this run's live groups, per kind: the smallest (by length, then bytes) `HARVEST_CAP`
+/// of each kind are kept, so that the set does not depend on the order in which the shards finish.
+static HARVEST: std::sync::Mutex<BTreeMap<&'static str, std::collections::BTreeSet<(usize, Vec<u8>)>>> = std::sync::Mutex::new(BTreeMap::new());
+const HARVEST_CAP: usize = 48;
+
+fn harvest(kind: &'static str, bytes: Vec<u8>) {
+    if bytes.is_empty() || bytes.len() > 1 << 16 {
+        return;
+    }
+    let mut h = HARVEST.lock().unwrap();
+    let set = h.entry(kind).or_default();
+    set.insert((bytes.len(), bytes));
+    while set.len() > HARVEST_CAP {
+        let last = set.iter().next_back().cloned();
+        if let Some(l) = last {
+            set.remove(&l);
+        }
+    }
+}
+
 fn codec<T: MlsDecode + MlsEncode + MlsSize + PartialEq>(b: &[u8]) -> Decoded {
     let mut r = b;
     match T::mls_decode(&mut r) {
@@ -169,9 +189,12 @@ pub fn targets() -> Vec<Target> {
         Target { name: "CommitSecrets", run: t_commit_secrets, map_backed: true, corpus: &["h_commit_secrets"] },
         Target { name: "ExternalSnapshot", run: t_external_snapshot, map_backed: true, corpus: &["h_external_snapshot"] },
         Target { name: "CachedProposal", run: t_cached_proposal, map_backed: false, corpus: &["h_cached_proposal"] },
+        Target { name: "CommitMessageDescription", run: codec::<mls_rs::group::CommitMessageDescription>, map_backed: true, corpus: &["h_commit_description", "h_commit_description_removed", "h_commit_description_reinit"] },
         Target { name: "VecU32", run: codec::<Vec<u32>>, map_backed: false, corpus: &[] },
         Target { name: "VecVecU8", run: codec::<Vec<Vec<u8>>>, map_backed: false, corpus: &[] },
         Target { name: "OptionU16", run: codec::<Option<u16>>, map_backed: false, corpus: &[] },
+        Target { name: "Bool", run: codec::<bool>, map_backed: false, corpus: &[] },
+        Target { name: "VecBool", run: codec::<Vec<bool>>, map_backed: false, corpus: &[] },
     ]
 }
 
@@ -276,12 +299,22 @@ pub fn judge(t: &Target, input: &[u8], must_accept: bool, ev: &Evidence) -> Case
                     Some(c) => c == enc.len(),
                     None => enc.len() <= input.len(),
                 };
-                if t.map_backed && len_ok && roundtrip_eq {
+                // a permuted map has the same bytes in another order: same length, same decoded value, same byte histogram
+                let same_bytes = || {
+                    let mut a = enc.clone();
+                    let mut b = input[..consumed.unwrap_or(input.len()).min(input.len())].to_vec();
+                    a.sort_unstable();
+                    b.sort_unstable();
+                    a == b
+                };
+                if t.map_backed && len_ok && roundtrip_eq && (consumed.is_none() || same_bytes()) {
                     ev.class("accepted_map_permuted");
                 } else {
                     return ev.known_or_fail(&format!("{P}|reencode_differs|{}", t.name), || {
-                        format!("decode accepted {consumed:?} bytes but value re-encodes to {} (len {}); input[{}]={}",
-                            hex::encode(&enc[..enc.len().min(96)]), enc.len(), input.len(), show())
+                        let at = enc.iter().zip(input.iter()).position(|(a, b)| a != b).unwrap_or(enc.len().min(input.len()));
+                        let lo = at.saturating_sub(12);
+                        format!("decode accepted {consumed:?} bytes but value re-encodes to {} (len {}); input[{}]={}; first difference at byte {at}: input ..{}.. re-encoding ..{}..",
+                            hex::encode(&enc[..enc.len().min(96)]), enc.len(), input.len(), show(), hex::encode(&input[lo..(at + 12).min(input.len())]), hex::encode(&enc[lo..(at + 12).min(enc.len())]))
                     });
                 }
             }
@@ -659,7 +692,7 @@ pub fn run(ctx: &Ctx) -> ! {
         "cases = (decode target, input) with inputs from four generators: uniform random bytes; valid inputs (IETF serialization vectors + \
          harvested library output) mutated by bit flips, byte sets, truncation, insertion, deletion, varint-form overwrites/insertions, \
          out-of-range discriminants and splices; valid inputs unchanged; values built by the crate's `arbitrary` feature, encoded, and fed back. \
-         Oracle per input: no panic; peak heap growth <= 4096*len + 1 MiB; Ok(v) => encode(v) == consumed bytes, mls_encoded_len == bytes written, \
+         The library-made part of the valid corpus is harvested from this run's live groups (messages, trees, group contexts, commit secrets, commit descriptions by effect incl. ReInit; the 48 smallest of each kind). Oracle per input: no panic; peak heap growth <= 4096*len + 1 MiB; Ok(v) => encode(v) == consumed bytes, mls_encoded_len == bytes written, \
          decode(encode(v)) == v. Plus collections whose content length sits on the size-header boundaries (63/64, 16383/16384 bytes) and custom proposals of the reserved types 0-9. Plus every 1- and 2-byte varint form and sampled 4-byte forms against an RFC 9000 reference decoder. Plus the state a member stores \
          (snapshot incl. secret tree with skipped message keys, pending commit, pending updates, cached proposals; prior epochs) taken from generated group histories (hook): reported length == \
          bytes written, decodes completely, re-encodes to the same length, decoded value equal; the pending commit, which the snapshot carries as bytes, decodes completely and re-encodes to exactly those bytes. \
@@ -669,7 +702,24 @@ pub fn run(ctx: &Ctx) -> ! {
     ev.assume("re-encode equality for from_bytes-only types is checked as 'encoding is a prefix of the input' (the API does not report how many bytes were consumed)");
 
     let targets = targets();
-    let corpus = load_corpus();
+    let mut corpus = load_corpus();
+    if ctx.replay.is_none() {
+    // live member state from generated histories
+        {
+            let mut hp = crate::history::HistoryParams::standard(ctx.tier);
+            hp.max_initial = 5;
+            hp.weights = [6, 8, 6, 3, 2, 2, 3, 22, 3, 10, 3, 30];
+            let spec = RunSpec { shards: 16, cases_per_shard: ctx.tier.pick(12, 300), cfg_len: crate::history::CFG_LEN, min_ops: 6, max_ops: ctx.tier.pick(24, 50), max_shrink_iters: 100 };
+            if let Err(v) = run_sharded(&ev, &spec, 1212, &|case| live_state_case(case, &ev, &hp)) {
+                let payload = v.case.as_ref().map(|c| json!({"kind": "live_state", "case": c.to_json()})).unwrap_or(Value::Null);
+                finish_violation(&ev, v, payload);
+            }
+        }
+        // what the live groups produced is the library-made part of the valid corpus (kinds `h_*`)
+        for (kind, items) in HARVEST.lock().unwrap().iter() {
+            corpus.entry(kind.to_string()).or_default().extend(items.iter().map(|(_, b)| b.clone()));
+        }
+    }
     ev.put_extra("corpus_items", json!(corpus.iter().map(|(k, v)| (k.clone(), v.len())).collect::<BTreeMap<_, _>>()));
     ev.put_extra("targets", json!(targets.iter().map(|t| t.name).collect::<Vec<_>>()));
 
@@ -719,18 +769,6 @@ pub fn run(ctx: &Ctx) -> ! {
     }
     if let Err(f) = varint_exhaustive(&ev, ctx.tier, ctx.seed) {
         finish_violation(&ev, Violation { failure: f, case: None }, json!({"kind": "varint"}));
-    }
-
-    // live member state from generated histories
-    {
-        let mut hp = crate::history::HistoryParams::standard(ctx.tier);
-        hp.max_initial = 5;
-        hp.weights = [6, 8, 6, 3, 2, 2, 3, 22, 3, 10, 3, 30];
-        let spec = RunSpec { shards: 16, cases_per_shard: ctx.tier.pick(12, 300), cfg_len: crate::history::CFG_LEN, min_ops: 6, max_ops: ctx.tier.pick(24, 50), max_shrink_iters: 100 };
-        if let Err(v) = run_sharded(&ev, &spec, 1212, &|case| live_state_case(case, &ev, &hp)) {
-            let payload = v.case.as_ref().map(|c| json!({"kind": "live_state", "case": c.to_json()})).unwrap_or(Value::Null);
-            finish_violation(&ev, v, payload);
-        }
     }
 
     let spec = RunSpec {
@@ -793,6 +831,74 @@ impl<'e> LiveEnc<'e> {
         }
         Ok(())
     }
+    /// A commit description as the library reports it: exact length, round trip, and into the corpus.
+    fn description(&mut self, d: &mls_rs::group::CommitMessageDescription, what: &str) -> CaseResult {
+        let bytes = d.mls_encode_to_vec().map_err(|e| Failure::new(format!("{P}|live_state|commit_description|encode_failed"), format!("{e:?}")))?;
+        self.ev.eval(1);
+        if d.mls_encoded_len() != bytes.len() {
+            return Err(Failure::new(
+                format!("{P}|live_state|commit_description|mls_encoded_len_differs_from_bytes_written"),
+                format!("{what}: mls_encoded_len {} but {} bytes written; effect {}", d.mls_encoded_len(), bytes.len(), format!("{:?}", d.effect).chars().take(24).collect::<String>()),
+            ));
+        }
+        let mut r = &bytes[..];
+        match mls_rs::group::CommitMessageDescription::mls_decode(&mut r) {
+            Ok(d2) if r.is_empty() && d2 == *d => {}
+            other => {
+                return Err(Failure::new(
+                    format!("{P}|live_state|commit_description|round_trip_differs"),
+                    format!("{what}: decodes {} with {} bytes left, equal {}", other.is_ok(), r.len(), other.map(|x| x == *d).unwrap_or(false)),
+                ))
+            }
+        }
+        self.ev.class(&format!("live_state:{}", what.replace(' ', "_")));
+        harvest(
+            match &d.effect {
+                mls_rs::group::CommitEffect::Removed { .. } => "h_commit_description_removed",
+                mls_rs::group::CommitEffect::ReInit(_) => "h_commit_description_reinit",
+                _ => "h_commit_description",
+            },
+            bytes,
+        );
+        Ok(())
+    }
+
+    /// A ReInit commit built and received by copies of two members (the group goes on): its pending-commit encoding and
+    /// the description the receiver gets (effect ReInit).
+    fn reinit_probe(&mut self, w: &crate::world::World) -> CaseResult {
+        let members = w.members();
+        if members.len() < 2 {
+            return Ok(());
+        }
+        let (a, b) = (members[0], members[1]);
+        let t = w.now();
+        let mut ca = w.parties[a].g().clone();
+        if ca.has_pending_commit() {
+            return Ok(());
+        }
+        let suite = w.cfg.suite;
+        let Ok(out) = crate::world::guard(|| ca.commit_builder().reinit(Some(b"next".to_vec()), mls_rs::ProtocolVersion::MLS_10, mls_rs::CipherSuite::from(suite), mls_rs::ExtensionList::new())?.commit_time(t).build()) else {
+            return Ok(());
+        };
+        if let Ok(encs) = crate::world::guard(|| ca.verif_state_encodings()) {
+            for e in encs.iter().filter(|e| e.what == "pending_commit") {
+                self.ev.eval(1);
+                if e.reported_len != e.bytes.len() || !e.decodes || e.reencoded_len != e.bytes.len() || !e.decoded_equal {
+                    return Err(Failure::new(
+                        format!("{P}|live_state|pending_commit|{}", if e.reported_len != e.bytes.len() { "mls_encoded_len_differs_from_bytes_written" } else { "round_trip_differs" }),
+                        format!("pending ReInit commit of party {a}: mls_encoded_len {} stored {} bytes, decodes {}, re-encodes to {} bytes", e.reported_len, e.bytes.len(), e.decodes, e.reencoded_len),
+                    ));
+                }
+                self.ev.class("live_state:pending_commit:reinit");
+            }
+        }
+        let mut cb = w.parties[b].g().clone();
+        if let Ok(mls_rs::group::ReceivedMessage::Commit(d)) = crate::world::guard(|| cb.process_incoming_message_with_time(out.commit_message.clone(), t)) {
+            self.description(&d, "commit description reinit")?;
+        }
+        Ok(())
+    }
+
     fn all(&mut self, w: &crate::world::World, site: &str) -> CaseResult {
         for m in w.members() {
             self.check(w, m, site)?;
@@ -802,8 +908,51 @@ impl<'e> LiveEnc<'e> {
 }
 
 impl<'e> crate::history::Observer for LiveEnc<'e> {
+    fn on_start(&mut self, w: &mut crate::world::World) {
+        w.keep_wire_log = true;
+    }
     fn after_commit(&mut self, w: &mut crate::world::World, _i: &crate::world::CommitInfo, _s: &crate::history::HistoryStats) -> CaseResult {
+        // harvest what the library produced in this epoch: it is the valid corpus of the byte-level part below
+        for (kind, bytes) in w.wire_log.drain(..) {
+            match kind {
+                "tree" => harvest("h_tree", bytes),
+                _ => harvest("h_message", bytes),
+            }
+        }
+        if let Some(m) = w.members().first().copied() {
+            let g = w.parties[m].g();
+            if let Ok(b) = g.context().mls_encode_to_vec() {
+                harvest("h_group_context", b);
+            }
+            if let Ok(gi) = crate::world::guard(|| g.group_info_message(true)) {
+                if let Ok(b) = gi.to_bytes() {
+                    harvest("h_message", b);
+                }
+            }
+            if let Ok(b) = g.export_tree().to_bytes() {
+                harvest("h_tree", b);
+            }
+            let mut c = g.clone();
+            let t = w.now();
+            if let Ok((_, secrets)) = crate::world::guard(|| c.commit_builder().commit_time(t).build_detached()) {
+                if let Ok(b) = secrets.to_bytes() {
+                    harvest("h_commit_secrets", b);
+                }
+            }
+        }
+        if w.epoch % 3 == 0 {
+            self.reinit_probe(w)?;
+        }
         self.all(w, "after_commit")
+    }
+    fn before_receive_commit(&mut self, w: &mut crate::world::World, m: usize, bytes: &[u8]) -> CaseResult {
+        // the description of the commit as this receiver will report it
+        let mut c = w.parties[m].g().clone();
+        let t = w.now();
+        if let Ok(mls_rs::group::ReceivedMessage::Commit(d)) = crate::world::guard(|| c.process_incoming_message_with_time(mls_rs::MlsMessage::from_bytes(bytes)?, t)) {
+            self.description(&d, "commit description")?;
+        }
+        Ok(())
     }
     fn before_commit(&mut self, w: &mut crate::world::World, _c: usize) -> CaseResult {
         self.all(w, "with_cached_proposals")
